@@ -157,6 +157,10 @@ func workerMain(repo, hdir string) {
 			if rq.MaxInstrs > 0 {
 				ex.MaxInstrs = rq.MaxInstrs
 			}
+			interp.PathWallLimit = 120
+			if rq.Tier > 0 {
+				interp.PathWallLimit = 600
+			}
 			res = ex.RunPath(pkg.Func(rq.Harness), rq.Harness, rq.Prefix)
 		}
 		b, _ := json.Marshal(res)
